@@ -280,6 +280,9 @@ class C13(BaseCheck):
             'warm': k.random() < 0.96,
             'slow_io': k.random() < 0.3,
             'shared_grid': k.random() < 0.7,
+            # the shared grid is a slice copy: its id index has not been built when the threads start, so
+            # the first `a->b` path evaluations build it lazily while other threads are looking things up
+            'unindexed': k.random() < 0.4,
             'gc_at': k.choice([None, None, k.randrange(50, 1500)]),
         }
         case = {'class': cls, 'grid': spec, 'pool': pool, 'threads': threads, 'knobs': knobs, 'fault': None}
@@ -399,6 +402,9 @@ class C13(BaseCheck):
             cap = self._install_cache(knobs.get('cache'), stats)
             stats['capacity.%s' % cap] = 1
             shared = build_grid(hs, spec)
+            if knobs.get('unindexed'):
+                shared = shared[:]
+                stats['unindexed_shared_grid_runs'] = 1
             # solo reference: every pool filter evaluated alone, first, on a private grid
             usable = []
             for f in pool:
@@ -637,7 +643,7 @@ class C13(BaseCheck):
                                                        if d[3] != 'pre' or i in keep]
                 yield c
         # 4. simpler knobs
-        for name, val in (('gc_at', None), ('slow_io', False), ('opcode', False), ('deps', False), ('warm', True)):
+        for name, val in (('gc_at', None), ('slow_io', False), ('opcode', False), ('deps', False), ('warm', True), ('unindexed', False)):
             if case['knobs'].get(name) not in (val, None) or (name == 'warm' and not case['knobs'].get('warm')):
                 c = copy.deepcopy(case)
                 c['knobs'][name] = val
